@@ -32,6 +32,7 @@ func init() {
 			ruleOnlyAutomaticKeysAreKeptOnRemove(c, "R16")
 			ruleReportedRoute(c, "R17")
 			ruleRuleTextHasNoBraces(c, "R18")
+			ruleInstallsAreCounted(c, "R19")
 		},
 	})
 	register(&Spec{
